@@ -60,6 +60,64 @@ Example C07_example :
   end.
 Proof. vm_compute. repeat split. Qed.
 
+(* Steady, stalled or merely late clock (no backward jump anywhere): no shifts,
+   every deadline is exactly the start reading plus k+1 tocks -- no drift,
+   whatever the work times, overshoots and early wakeups were. *)
+Theorem C07_no_drift : forall fuel tock tm w works out tmf wf,
+  world_ok w -> Forall step_ok works -> no_retro (reads w) -> no_retro works ->
+  do_real VSync fuel tock tm w works = Some (out, tmf, wf) ->
+  forall k c, nth_error (r_cycles out) k = Some c ->
+    c_stop c = r_now out + (Z.of_nat k + 1) * tock.
+Proof. exact do_real_no_drift. Qed.
+Print Assumptions C07_no_drift.
+
+Example C07_no_drift_example :   (* work of 1.5 tocks in cycle 1, overshoot of 2 tocks on the last sleep: cycles 1, 2, 4 start late, the deadlines do not move *)
+  let w := {| now := 0; mono := 0; reads := [(0, 0); (1, 0); (0, 0); (3, 0)]; overs := [Over 0; Over 16]; log := [] |} in
+  let tm := {| t_start := 0; t_stop := 0; t_last := 0 |} in
+  world_ok w /\ no_retro (reads w) /\
+  match do_real VSync 3 8 tm w [(2, 0); (12, 0); (2, 0); (2, 0); (2, 0)] with
+  | Some (out, _, _) => map c_stop (r_cycles out) = [8; 16; 24; 32; 40] /\
+                        map c_now (r_cycles out) = [0; 11; 23; 25; 48] /\ r_end_now out = 50
+  | None => False
+  end.
+Proof.
+  split; [split; cbn; repeat constructor; cbn; lia|]. split; [repeat constructor|].
+  vm_compute. repeat split.
+Qed.
+
+(* The model's wait loop has fuel; it cannot run out: a wait goes round again
+   only after a backward jump was read or a sleep returned early, so a fuel
+   above twice their number in the script (plus one) always suffices. *)
+Theorem C07_terminates : forall fuel tock tm w works,
+  world_ok w -> Forall step_ok works -> (2 * bad w + 1 < fuel)%nat ->
+  exists out tmf wf, do_real VSync fuel tock tm w works = Some (out, tmf, wf).
+Proof. exact do_real_ends. Qed.
+Print Assumptions C07_terminates.
+
+(* Whole sessions: a Doist built with tock0 under any clock, then any number of
+   do() runs, each after an arbitrary clock step (time passing, a step back)
+   and an optional `doist.tock = x`: every run is not early and lossless with
+   respect to the tock in force when it starts ([eff_tocks]). *)
+Theorem C07_sessions : forall fuel t0 tock0 rs os runs outs,
+  Forall step_ok rs -> Forall slp_ok os -> Forall run_ok runs ->
+  play VSync fuel t0 tock0 rs os runs = Some outs ->
+  Forall2 (fun t o => not_early_run t o /\ lossless_run t o) (eff_tocks tock0 runs) outs.
+Proof. exact play_runs. Qed.
+Print Assumptions C07_sessions.
+
+Example C07_sessions_example :   (* the two fixed defects' inputs in one session: step back before run 1, tock reassigned for run 2 *)
+  let runs := [{| i_pre := (40, 840); i_tock := None; i_works := [(0, 0); (0, 0); (0, 0)] |};
+               {| i_pre := (3, 0); i_tock := Some 16; i_works := [(1, 0); (1, 0)] |}] in
+  Forall run_ok runs /\ eff_tocks 4 runs = [4; 16] /\
+  match play VSync 3 8000 4 [] [] runs with
+  | Some [o1; o2] => map c_mono (r_cycles o1) = [40; 44; 48] /\ r_end_mono o1 = 52 /\
+                     map c_mono (r_cycles o2) = [55; 71] /\ r_end_mono o2 = 87
+  | _ => False
+  end.
+Proof.
+  split; [repeat constructor; cbn; lia|]. vm_compute. repeat split.
+Qed.
+
 (* The two defects the code had (fixed in /repo by 3c12e10 and a09d879) as
    theorems about the older forms of the run start. *)
 
